@@ -74,6 +74,7 @@ type Gen struct {
 	strLits   map[string]int
 	repoMod   string // module path prefix of the repository
 	writeSets map[*ssa.Function]*writeSet
+	cg        *callGraph
 	compSortHints map[string]Sort
 	stable    map[string]map[string]bool // stable field component prefix -> declared writers
 	workDir   string
@@ -215,6 +216,27 @@ func (g *Gen) resolveTypeString(s, pkgPath string) types.Type {
 	if strings.HasPrefix(s, "[]") {
 		if T := g.resolveTypeString(s[2:], pkgPath); T != nil {
 			return types.NewSlice(T)
+		}
+		return nil
+	}
+	if strings.HasPrefix(s, "map[") {
+		// map[K]V with a bracket-balanced key
+		depth := 0
+		for i := 3; i < len(s); i++ {
+			switch s[i] {
+			case '[':
+				depth++
+			case ']':
+				depth--
+				if depth == 0 {
+					K := g.resolveTypeString(s[4:i], pkgPath)
+					V := g.resolveTypeString(s[i+1:], pkgPath)
+					if K == nil || V == nil {
+						return nil
+					}
+					return types.NewMap(K, V)
+				}
+			}
 		}
 		return nil
 	}
